@@ -73,7 +73,7 @@ impl Image {
         let mut images = Vec::new();
         // Only a child of the root element is the list of images, an extension attribute
         // with the same name inside of a point cloud prototype is not
-        let root = document.descendants().find(|n| n.has_tag_name("e57Root"));
+        let root = Some(document.root_element()).filter(|n| n.has_tag_name("e57Root"));
         let images2d = root.and_then(|r| r.children().find(|n| n.has_tag_name("images2D")));
         if let Some(images2d_node) = images2d {
             for n in images2d_node.children() {
